@@ -667,6 +667,8 @@ static int state_sync_process(struct snapraid_state* state, struct snapraid_pari
 	struct snapraid_handle* handle;
 	void* rehandle_alloc;
 	struct snapraid_rehash* rehandle;
+	void* chghandle_alloc;
+	struct snapraid_rehash* chghandle;
 	unsigned diskmax;
 	block_off_t blockcur;
 	unsigned j;
@@ -706,6 +708,9 @@ static int state_sync_process(struct snapraid_state* state, struct snapraid_pari
 
 	/* rehash buffers */
 	rehandle = malloc_nofail_align(diskmax * sizeof(struct snapraid_rehash), &rehandle_alloc);
+
+	/* hash buffers for the CHG blocks, stored in the block only when the stripe is completed */
+	chghandle = malloc_nofail_align(diskmax * sizeof(struct snapraid_rehash), &chghandle_alloc);
 
 	/* we need 1 * data + 1 * parity */
 	buffermax = diskmax + state->level;
@@ -854,6 +859,9 @@ static int state_sync_process(struct snapraid_state* state, struct snapraid_pari
 
 			/* by default no rehash in case of "continue" */
 			rehandle[diskcur].block = 0;
+
+			/* by default no new hash to store */
+			chghandle[diskcur].block = 0;
 
 			/* if the disk position is not used */
 			if (!disk)
@@ -1012,9 +1020,11 @@ static int state_sync_process(struct snapraid_state* state, struct snapraid_pari
 					}
 				}
 
-				/* copy the hash in the block, but doesn't mark the block as hashed */
-				/* this allow in case of skipped block to do not save the failed computation */
-				memcpy(block->hash, hash, BLOCK_HASH_SIZE);
+				/* keep the computed hash aside, it's stored in the block only if the stripe is completed */
+				/* until then the block keeps the hash of the past data, the one still in the parity, */
+				/* that is needed to recover if the stripe is skipped for an error in another disk */
+				chghandle[diskcur].block = block;
+				memcpy(chghandle[diskcur].hash, hash, BLOCK_HASH_SIZE);
 
 				/* note that in case of rehash, this is the wrong hash, */
 				/* but it will be overwritten later */
@@ -1182,6 +1192,10 @@ static int state_sync_process(struct snapraid_state* state, struct snapraid_pari
 
 				if (!handle[j].disk)
 					continue;
+
+				/* now the hash computed for CHG blocks is the one of the data in the parity */
+				if (chghandle[j].block)
+					memcpy(chghandle[j].block->hash, chghandle[j].hash, BLOCK_HASH_SIZE);
 
 				block = fs_par2block_find(handle[j].disk, blockcur);
 
@@ -1415,6 +1429,7 @@ bail:
 	free(copy_alloc);
 	free(copy);
 	free(rehandle_alloc);
+	free(chghandle_alloc);
 	free(failed);
 	free(failed_map);
 	free(waiting_map);
